@@ -332,7 +332,13 @@ fn oracle(case: &Case, ctx: &mut CaseCtx) -> Outcome {
     // (a) data safety
     check_safety(case, t)?;
     // no send storm (datagram cap reached)
-    if sum.storm {
+    // In a black hole an endpoint with unacknowledged data retransmits for ever (known finding
+    // hang:Blackhole*): with much data outstanding that endless retransmission reaches the total
+    // datagram cap before the virtual deadline. It is the same failure as the hang and is reported
+    // as such; a burst at one instant stays a send storm in every profile.
+    let endless_retransmission =
+        sum.storm && case.profile == Profile::Blackhole && sum.max_burst_same_instant < sum.burst_cap;
+    if sum.storm && !endless_retransmission {
         let sig = if sum.max_burst_same_instant >= sum.burst_cap {
             if zero_lat { "send-storm:burst:zero-latency" } else { "send-storm:burst" }
         } else if zero_lat {
@@ -382,7 +388,7 @@ fn oracle(case: &Case, ctx: &mut CaseCtx) -> Outcome {
         }
         Profile::Moderate | Profile::Blackhole => {
             // no hang: by the deadline every operation has ended, one way or the other
-            if t.timed_out {
+            if t.timed_out || endless_retransmission {
                 // the client only learns the server's idle timeout from its transport
                 // parameters: before that, its own value alone is in force
                 let negotiated = matches!(t.client_handshaked, Some(Ok(())));
